@@ -568,6 +568,9 @@ const fn mul(a: u64, b: u64) -> u64 {
 #[inline(always)]
 #[allow(clippy::many_single_char_names)]
 fn inv(x: u64) -> u64 {
+    // the element can be in the [0, 2M) range, so we normalize it first; in particular, zero may
+    // be represented as M, for which the loop below would never terminate
+    let x = normalize(x);
     if x == 0 {
         return 0;
     };
